@@ -7,7 +7,7 @@
    real closed field F, for ALL shapes n (samples), m (features), p (targets), k (components),
    q (rows of new data); [sp] selects the space (true = sample, false = feature).
    [env] holds the inputs and the LAPACK oracle answers; what the theorems assume about the
-   oracles is spelled out by C14_hypotheses_* below (validated numerically on every run of
+   oracles is spelled out by C14_hypotheses_sample / _feature below (validated numerically on every run of
    the correspondence check).  [retained_mask k env] = diag(1 if S_i > tol else 0): the
    code zeroes the components whose eigenvalue does not exceed tol. *)
 From mathcomp Require Import all_ssreflect all_algebra.
@@ -52,7 +52,7 @@ Print Assumptions C14_hypothesis_centred.
 Theorem C14_mask_meaning :
   forall (F : rcfType) (k : nat) (env : env_mx F) i j,
     retained_mask k env i j = (if e_tol env < e_S k env i 0 then 1 else 0) *+ (i == j).
-Proof. by move=> F k env i j; rewrite /retained_mask dmapE. Qed.
+Proof. exact mask_meaning. Qed.
 Print Assumptions C14_mask_meaning.
 
 (* ---- round trip: ptx_ @ pxt_ is the identity on the retained components, both spaces -- *)
@@ -128,10 +128,11 @@ Theorem C14_score :
 Proof. exact score_formula. Qed.
 Print Assumptions C14_score.
 
-(* ---- the hypotheses are satisfiable, non-trivially, in both spaces, over every field ---- *)
+(* ---- the hypotheses are satisfiable, non-trivially, in both spaces, over every field and
+   for every value of the mixing ------------------------------------------------------------ *)
 Example C14_nonvacuous :
-  forall F : rcfType, exists env : env_mx F,
+  forall (F : rcfType) (mix : F), exists env : env_mx F,
     [/\ centred 2 1 env, fit_oracle 2 1 1 1 env true, fit_oracle 2 1 1 1 env false
-      & [/\ forall i, e_tol env < e_S 1 env i 0, 0 < e_a env < 1 & e_X 2 1 env != 0]].
-Proof. exact (fun F => ex_intro _ (ex_env F) (ex_nonvacuous F)). Qed.
+      & [/\ forall i, e_tol env < e_S 1 env i 0, e_a env = mix & e_X 2 1 env != 0]].
+Proof. exact (fun F mix => ex_intro _ (ex_env mix) (ex_nonvacuous mix)). Qed.
 Print Assumptions C14_nonvacuous.
